@@ -239,9 +239,12 @@ def check_property(prop: str, tier: str, seed: int, level: str = "proof") -> int
         spec = specs[vs[0]["spec_index"]]
         failing = None
         recheck = None
+        # definite refutations carrying a solver model are replayed first; unknowns only trigger the native search
+        vs.sort(key=lambda v: (bool(v.get("unknown")), v["r"].get("model") is None))
         chosen = vs[0]
         for v in vs[:6]:
             r = v["r"]
+            spec = specs[v["spec_index"]]
             try:
                 if r.get("model") is not None and hasattr(spec, "replay"):
                     failing = spec.replay(v["inst"], r["model"])
